@@ -485,6 +485,25 @@ def gen_use_clip(api):
     api.ok('tables', 'UseClip', props=PROPS)
 
 
+MOD = 'crates/usvg/src/parser/mod.rs'
+
+
+def gen_gzip_magic(api):
+    """Tree::from_data: the byte prefix that selects the gzip path (RFC 1952: ID1 ID2 only; CM / FLG belong to the decoder)"""
+    try:
+        b = norm(fn_body(strip_comments(api.rd(MOD)), 'from_data'))
+        m = re.match(r"if data\.starts_with\(&\[((?:0x[0-9a-fA-F]{2}(?:, )?)+)\]\) \{ let data = decompress_svgz\(data\)\?; "
+                     r"let text = std::str::from_utf8\(&data\)\.map_err\(\|_\| Error::NotAnUtf8Str\)\?; Self::from_str\(text, opt\) \} else \{", b)
+        if not m:
+            raise Missing("mod.rs Tree::from_data: gzip detection no longer has the transcribed form")
+        magic = [int(x, 16) for x in m.group(1).split(', ')]
+    except (Missing, OSError, ValueError) as e:
+        api.broken('table', 'GzipMagic', PROPS, e)
+        magic = [0x1f, 0x8b]
+    api.write_gen('GzipMagic.v', api.HEADER + "From RV Require Import Model.Base.\n(* mod.rs Tree::from_data: data.starts_with(&[..]) selects "
+                  "the gzip path *)\nDefinition GZIP_MAGIC : list N := [%s]%%N.\n" % '; '.join(str(v) for v in magic))
+
+
 def generate(api):
     try:
         t = parse_tables(api.rd, strict=False)
@@ -500,6 +519,7 @@ def generate(api):
         if not t['errors']:
             api.ok('tables', 'StructTables', props=PROPS, features=len(t['features']))
     gen_use_clip(api)
+    gen_gzip_magic(api)
     try:
         sh = parse_shapes(api.rd)
     except (Missing, OSError, ValueError, IndexError, KeyError) as e:
